@@ -3,6 +3,7 @@ package props
 import (
 	"fmt"
 	"go/ast"
+	"go/constant"
 	"go/token"
 	"go/types"
 	"sort"
@@ -400,6 +401,7 @@ func checkC15(c *Ctx) {
 		c.Check(okShape, "C15.R3.filter", "diff.SpecDifferences.Contains › exists e. e.Matches(x)", c.posOf(pk, fd.Pos()), "shape confirmed", "Contains is not `for e in sd { if e.Matches(x) { return true } }; return false`")
 	}
 	checkExecuteOrdering(c, cmds, pk)
+	checkFormatChannel(c, cmds)
 
 	// ---- R4 sections
 	checkSections(c, "C15.R4.sections", pk)
@@ -513,6 +515,98 @@ func checkExecuteOrdering(c *Ctx, cmds, diffpk *packages.Package) {
 	}
 	c.Check(reports >= 2 && !bad, rule, "commands.DiffCommand.Execute › reports render the filtered list", c.posOf(cmds, filterPos),
 		fmt.Sprintf("%d report calls, all on the filtered value and after the filter", reports), "a report is rendered from a value other than the filtered list, or before filtering")
+}
+
+// checkFormatChannel: with -f json only the JSON renderer may run (the output is fed back as an
+// ignore file), and the destination file is truncated before the report is written.
+func checkFormatChannel(c *Ctx, cmds *packages.Package) {
+	rule := "C15.R3.format-channel"
+	c.Rule(rule, "in DiffCommand.Execute the text-only report runs only when the format is not JSON, ReportAllDiffs is told `Format == JSONFormat`, and a destination file is opened truncated", 3)
+	fd := load.FuncDecl(cmds, "DiffCommand.Execute")
+	if fd == nil {
+		c.Anchor(rule, "commands.DiffCommand.Execute", "not found")
+		return
+	}
+	info := cmds.TypesInfo
+	isFormatTest := func(e ast.Expr, op token.Token) bool {
+		be, ok := ast.Unparen(e).(*ast.BinaryExpr)
+		return ok && be.Op == op && goan.LastSel(be.X) == "Format" && goan.IsIdent(be.Y, "JSONFormat")
+	}
+	seenCompat, seenAll := false, false
+	goan.WalkGuards(info, fd.Body, func(n ast.Node, guards []goan.Lit, _ []ast.Stmt) {
+		ast.Inspect(n, func(m ast.Node) bool {
+			call, ok := m.(*ast.CallExpr)
+			if !ok {
+				return true
+			}
+			switch goan.LastSel(call.Fun) {
+			case "ReportCompatibility":
+				seenCompat = true
+				ok := false
+				for _, g := range guards {
+					if g.Pos && isFormatTest(g.E, token.NEQ) || !g.Pos && isFormatTest(g.E, token.EQL) {
+						ok = true
+					}
+				}
+				c.Check(ok, rule, "commands.DiffCommand.Execute › ReportCompatibility only for non-JSON formats", c.posOf(cmds, call.Pos()), "under Format != JSONFormat",
+					"the text-only compatibility report can run with -f json: the JSON channel carries text that cannot be parsed or fed back as an ignore file")
+			case "ReportAllDiffs":
+				seenAll = true
+				ok := len(call.Args) == 1 && isFormatTest(call.Args[0], token.EQL)
+				c.Check(ok, rule, "commands.DiffCommand.Execute › ReportAllDiffs(Format == JSONFormat)", c.posOf(cmds, call.Pos()), "renderer selected by the format flag",
+					"ReportAllDiffs is not told `c.Format == JSONFormat`: the report is rendered in a format the user did not ask for")
+			}
+			return true
+		})
+	})
+	if !seenCompat || !seenAll {
+		c.Unk(rule, "commands.DiffCommand.Execute › report calls", c.posOf(cmds, fd.Pos()), "ReportCompatibility / ReportAllDiffs calls not found")
+	}
+	checkOpenTruncates(c, rule, cmds, []string{"DiffCommand.Execute"}, 1)
+}
+
+// checkOpenTruncates: every os.OpenFile for writing with O_CREATE (and neither O_APPEND nor
+// O_EXCL) in the named functions (all functions when nil) carries O_TRUNC: an existing longer
+// file must not keep its tail.
+func checkOpenTruncates(c *Ctx, rule string, pk *packages.Package, funcs []string, floor int) int {
+	info := pk.TypesInfo
+	n := 0
+	for _, fd := range load.AllFuncs(pk) {
+		if funcs != nil && !contains(funcs, load.FuncName(fd)) {
+			continue
+		}
+		fd := fd
+		ast.Inspect(fd.Body, func(nd ast.Node) bool {
+			call, ok := nd.(*ast.CallExpr)
+			if !ok || len(call.Args) != 3 {
+				return true
+			}
+			fn := goan.Callee(info, call)
+			if fn == nil || goan.CalleeName(fn) != "os.OpenFile" {
+				return true
+			}
+			tv, ok := info.Types[call.Args[1]]
+			if !ok || tv.Value == nil {
+				c.Unk(rule, fmt.Sprintf("%s › os.OpenFile flags", load.FuncName(fd)), c.posOf(pk, call.Pos()), "flags are not a constant expression")
+				return true
+			}
+			flags, _ := constant.Int64Val(tv.Value)
+			const (
+				oWRONLY, oRDWR, oAPPEND, oCREATE, oEXCL, oTRUNC = 0x1, 0x2, 0x400, 0x40, 0x80, 0x200
+			)
+			if flags&(oWRONLY|oRDWR) == 0 || flags&oCREATE == 0 || flags&(oAPPEND|oEXCL) != 0 {
+				return true
+			}
+			n++
+			c.Check(flags&oTRUNC != 0, rule, fmt.Sprintf("%s.%s › os.OpenFile(%s) truncates", pk.Name, load.FuncName(fd), goan.ExprString(call.Args[0])), c.posOf(pk, call.Pos()), "O_TRUNC set",
+				fmt.Sprintf("the output file is opened with %s, without O_TRUNC: when it already holds a longer document, the old tail survives the new content", goan.ExprString(call.Args[1])))
+			return true
+		})
+	}
+	if n < floor {
+		c.Unk(rule, "os.OpenFile for output", "", fmt.Sprintf("%d output opens found, expected at least %d", n, floor))
+	}
+	return n
 }
 
 // checkExitStatus implements C13.R6 / C15.R5.
